@@ -12,11 +12,17 @@
  *     g                          getters (document hash, signing time, identity, publication info) => G
  *     l:<level>                  set the log level of the context (a logger callback is installed) => L
  *     p:<sig-hex>                parse, verify and free another signature in the same context => P<st>
+ *     u:<pubfile-hex>:<oid>:<value-hex>   the publications file is from now on this one (served through file://, trusted through
+ *                                the CA in $VERIF_PKI_DIR under the given certificate constraint); fresh contexts are configured
+ *                                with the file that is current                                 => U<st>
  *   => P<status> when the first signature does not parse
  */
 #include "common.h"
 #include <ksi/ksi.h>
 #include <ksi/policy.h>
+#include <ksi/pkitruststore.h>
+#include <unistd.h>
+#include <ksi/verification_rule.h>
 #include <ksi/signature_builder.h>
 #include <ksi/tlv_template.h>
 #include <ksi/hashchain.h>
@@ -34,7 +40,31 @@ static const KSI_Policy *policy_by_name(const char *n) {
 	if (!strcmp(n, "userpub")) return KSI_VERIFICATION_POLICY_USER_PUBLICATION_BASED;
 	if (!strcmp(n, "general")) return KSI_VERIFICATION_POLICY_GENERAL;
 	if (!strcmp(n, "empty")) return KSI_VERIFICATION_POLICY_EMPTY;
+	if (!strcmp(n, "calin")) {
+		/* an application's own policy: the one rule that aggregates the chains from the document's level and compares the
+		 * result with the calendar chain's input — nothing before it has aggregated the chains from level 0 */
+		static const KSI_Rule rules[] = { {KSI_RULE_TYPE_BASIC, KSI_VerificationRule_CalendarHashChainInputHashVerification}, {KSI_RULE_TYPE_BASIC, NULL} };
+		static KSI_Policy *own; static KSI_CTX *pctx;
+		if (own == NULL) { KSI_CTX_new(&pctx); KSI_Policy_create(pctx, rules, "calendar-input-only", &own); }
+		return own;
+	}
 	return NULL;
+}
+
+/* the publications file that is current for this history, and how a context gets to trust it */
+static char pub_path[64], pub_oid[128], pub_val[256]; static int have_pub;
+static void configure_pub(KSI_CTX *c, int first) {
+	char uri[96];
+	if (!have_pub) return;
+	if (first) {
+		KSI_PKITruststore *pki = NULL; KSI_CertConstraint cons[2]; char ca[512]; const char *d = getenv("VERIF_PKI_DIR");
+		snprintf(ca, sizeof(ca), "%s/ca.pem", d ? d : ".");
+		KSI_PKITruststore_new(c, 0, &pki); KSI_PKITruststore_addLookupFile(pki, ca); KSI_CTX_setPKITruststore(c, pki);
+		memset(cons, 0, sizeof(cons)); cons[0].oid = pub_oid; cons[0].val = pub_val;
+		KSI_CTX_setDefaultPubFileCertConstraints(c, cons);
+	}
+	snprintf(uri, sizeof(uri), "file://%s", pub_path);
+	KSI_CTX_setPublicationUrl(c, uri);
 }
 
 static void verify_on(KSI_CTX *ctx, KSI_Signature *sig, const KSI_Policy *pol, KSI_DataHash *doc, unsigned long long level, char tag) {
@@ -94,6 +124,7 @@ static void do_line(char *work, const char *orig) {
 				{	/* the same question put to a fresh parse in a fresh context */
 					KSI_CTX *c2 = NULL; KSI_Signature *s2 = NULL; KSI_DataHash *d2 = NULL;
 					KSI_CTX_new(&c2);
+					configure_pub(c2, 1);
 					KSI_Signature_parseWithPolicy(c2, raw, len, KSI_VERIFICATION_POLICY_EMPTY, NULL, &s2);
 					if (doc != NULL) { const unsigned char *im; size_t il; KSI_DataHash_getImprint(doc, &im, &il); KSI_DataHash_fromImprint(c2, im, il, &d2); }
 					putchar('/');
@@ -102,6 +133,18 @@ static void do_line(char *work, const char *orig) {
 					KSI_DataHash_free(d2); KSI_Signature_free(s2); KSI_CTX_free(c2);
 				}
 				KSI_DataHash_free(doc);
+			} else if (!strncmp(op, "u:", 2)) {
+				char *a = op + 2, *b = strchr(a, ':'), *c = b ? strchr(b + 1, ':') : NULL; size_t pl, vl; unsigned char *pb, *vb; int fd, first = !have_pub; FILE *f;
+				if (b == NULL || c == NULL) { printf("BAD-OP"); continue; }
+				*b = 0; *c = 0;
+				pb = unhex(a, &pl); vb = unhex(c + 1, &vl);
+				if (have_pub) unlink(pub_path);
+				strcpy(pub_path, "/tmp/verif_c11_XXXXXX"); fd = mkstemp(pub_path); f = fdopen(fd, "wb"); if (pl) fwrite(pb, 1, pl, f); fclose(f);
+				snprintf(pub_oid, sizeof(pub_oid), "%s", b + 1); if (vl > 255) vl = 255; memcpy(pub_val, vb, vl); pub_val[vl] = 0;
+				have_pub = 1;
+				configure_pub(ctx, first);
+				printf("U0");
+				free(pb); free(vb);
 			} else if (!strcmp(op, "x")) {
 				KSI_Signature *ext = NULL; r = KSI_Signature_extend(sig, ctx, NULL, &ext);
 				printf("X%d", r); KSI_Signature_free(ext);
@@ -157,6 +200,7 @@ static void do_line(char *work, const char *orig) {
 		KSI_VerificationContext_clean(&shared);
 		KSI_Signature_free(sig);
 		KSI_CTX_free(ctx);
+		if (have_pub) { unlink(pub_path); have_pub = 0; }
 		free(raw);
 	} else printf("BAD-OP");
 }
